@@ -28,7 +28,7 @@ def rowOfString (s : List Char) : Row := ⟨fromGapped (s.map isGap), s.filter (
 /-- `str(aligned)` = `data.gapped_by_map(map)`: every span shows `data[start:end]` (clamped like any
 slice), every lost span shows gaps -/
 def gapped (r : Row) : List Char :=
-  (abs r.map).filterMap fun | none => some '-' | some i => r.data[i]?
+  (absSpans r.map).filterMap fun | none => some '-' | some i => r.data[i]?
 
 def pyIdx (a : Option Int) : Option Int := a
 
